@@ -18,7 +18,7 @@ def run(prop, tier, seed, replay):
     common.proof_coverage(v, st, prop, TB)
     v.coverage.update(dict(
         evaluations=res["evals"], distinct_nontrivial=res["distinct"],
-        rule="scenarios = initial tree + 2-3 client programs over {Put (content in 1-3 pieces, some with wrong hash / short length), Delete, Get} on shared and distinct paths + a schedule (which server advances one gated libc call next; optional kill), all from one SplitMix64 stream; one scenario in ten is the directed three-party lock hand-off (p0 holds the tree lock, p1 queues, p0 releases, p1 stops before its rename, p2 arrives), one in six runs every server as pid 1 of its own pid namespace (`unshare --pid --fork`: equal pids in different processes); plus the directed corpus schedules. Each is executed on real `copia serve` processes; replies, final tree and the tree after every essential step are compared with the extracted model run under the same schedule; independently a brute-force linearizability checker (CAS-map spec, real-time order) is run on the observed history. distinct_nontrivial = distinct model-level cases with more than 6 essential steps.",
+        rule="scenarios = initial tree + 2-3 client programs over {Put (content in 1-3 pieces, some with wrong hash / short length), Delete, Get} on shared and distinct paths + a schedule (which server advances one gated libc call next; optional kill), all from one SplitMix64 stream; three scenarios in ten are directed (a Get held just before it opens the file while another server commits content of another length; an overwriting commit held just before its publishing rename while another server reads; the three-party lock hand-off (p0 holds the tree lock, p1 queues, p0 releases, p1 stops before its rename, p2 arrives)), one in six runs every server as pid 1 of its own pid namespace (`unshare --pid --fork`: equal pids in different processes); plus the directed corpus schedules. Each is executed on real `copia serve` processes; replies, final tree and the tree after every essential step are compared with the extracted model run under the same schedule; independently a brute-force linearizability checker (CAS-map spec, real-time order) is run on the observed history. distinct_nontrivial = distinct model-level cases with more than 6 essential steps.",
         samples=res["samples"] or ["(none)"], distribution=res["stats"], disagreements=res["dis"]))
     v.assumptions = TB
     return v.finish()
